@@ -6,7 +6,16 @@ PROFILES = ["release", "debug"]
 RULE = ("every entry-point kind of the harness x adversarial inputs: byte soups over the significant text alphabet, random bytes, generated documents "
         "bit-flipped / spliced / truncated, deep nesting, unterminated quotes, huge binary length prefixes; streaming kinds with buffer sizes 1..64 and "
         "1-byte / random schedules; run in release AND debug (overflow checks, debug_assert!) under catch_unwind with an abort/hang watchdog. "
-        "non-trivial = input accepted by the entry point (not an immediate error)")
+        "non-trivial = input accepted by the entry point (not an immediate error). "
+        "Wave 4 (props/C05_inv.py, audit/C05.md): every case runs under an in-process per-case watchdog (10 s; positive control in every run); "
+        "ALL strings over the alphabet { } = \" \\ # a space up to length 5 and ALL binary token sequences (14 kinds) up to length 3 through "
+        "parser + whole-document DOM / JSON walk, slice reader, `any` deserializer, binary API walk; whole-DOM walk (every reader, iterator, json() "
+        "with all option combinations, serde_json::Value / IgnoredAny targets) on every tape the parser returns for the adversarial inputs and for "
+        "wide (1500 fields) and deep (250 levels) documents; mixed call sequences with faults on one text reader (next / read / skip_container / "
+        "skip_unquoted_value / read_bytes); typed deserializer targets named after the input's own words over all paths (slice, tape, objreader, "
+        "reader caps 1..64, freader, fslice); writer call histories with adversarial payloads and any indent configuration; public functions no other "
+        "kind calls; the side condition of the write_tape no-crash theorem evaluated on every real tape; DOM / JSON model correspondence on every "
+        "node of the accepted adversarial inputs")
 TRUSTED = ["real stack size, allocator behaviour and pointer provenance are outside the Gallina models (DESIGN.md section 10)"]
 ASSUMPTIONS = ["documented panics (Date::from_ymd, add_days overflow, DateHour::from_ymdh) are API contracts, not findings"]
 
@@ -78,18 +87,29 @@ def run(ctx):
         cases.append("tr.subslice\t%s\t%d" % (hexs(d), len(pre) + len(ws)))
         cases.append("tr.stream\t%d\t%d,%d\t%s\t%d" % (len(d) + 9, len(pre) + len(ws), len(d), hexs(pre + ws + b"c=d"), rng.choice([0x7b, 0x7d])))
     ctx.count("inputs", len(ins))
+    # >>> a_c05 (wave 4): every case runs under the in-process per-case watchdog (harness/src/fam_c05.rs `c05.w`), so that a
+    # hang is reported after WATCHDOG_MS as ABORT for exactly that case instead of costing the runner's 600 s chunk timeout
+    from props import C05_inv
+    cases = [C05_inv.w(c) for c in cases]
+    # <<<
     for prof in PROFILES:
-        impl, _ = ctx.correspond("entry_points_" + prof, cases, nontrivial=lambda c, i: not i.startswith("ERR") and i not in ("none", "NOKIND"), profile=prof, model=(prof == "release"))
+        r = C05_inv.guarded(ctx, "entry_points_" + prof, cases, prof, nontrivial=lambda c, i: not i.startswith("ERR") and i not in ("none", "NOKIND"), model=(prof == "release"))
+        if r is None:       # a_c05: hang storm seen by the pilot, failures already recorded
+            continue
+        impl = r[0]
         base = len(impl) - len(cases)
         for k, c in enumerate(cases):
             o = impl[base + k]
             if o in CRASH or o.startswith("RUNAWAY") or " RUNAWAY" in o:
-                ctx.fail("crash-" + c.split("\t")[0], "%s build: %s on %s" % (prof, o, c[:200].replace("\t", " ")), [c], [o], "a value or an error")
+                ctx.fail("crash-" + C05_inv.inner_kind(c), "%s build: %s on %s" % (prof, o, c[:200].replace("\t", " ")), [c], [o], "a value or an error")
     try:
         from props import C05_extra
         C05_extra.run_extra(ctx)
     except ImportError:
         pass
+    # >>> a_c05 (wave 4): inventory streams, see props/C05_inv.py and audit/C05.md
+    C05_inv.run_inv(ctx)
+    # <<<
 
 
 def search(ctx):
@@ -105,6 +125,6 @@ def search(ctx):
 
 CLAIM = {
     "text": "Coq theorems that the models of the entry points never reach a Panic/OOB/OutOfFuel outcome (every Rust panic site, unchecked access and loop is explicit in the models), tied to the code by correspondence; plus differential execution of every entry point in release and debug builds under catch_unwind with an abort/hang watchdog on adversarial inputs",
-    "note": "Partial by nature: real stack exhaustion, allocator failure and pointer provenance are not expressible in a Gallina model; recursion depth = nesting depth is reported as a known finding where it applies. Evidence lists the no-crash theorems proved.",
+    "note": "Wave 4: DOM and JSON entry points are pinned FROM BYTES (Props/C05_inv.v: for every input the parser accepts, no hypothesis on the tape); write_tape on parsed tapes is proved crash free and terminating under one executable side condition (no parameter token in value position, Props/C05_wtape.v, _partial) which is evaluated on every real tape by the extracted checker and by an independent walk over the real DOM (stream inv_write_tape_side). Finding N (audit/C05.md): in an unoptimised build the streaming readers recurse once per refill inside a token; not observable with the harness profiles. Partial by nature: real stack exhaustion, allocator failure and pointer provenance are not expressible in a Gallina model; recursion depth = nesting depth is reported as a known finding where it applies. Evidence lists the no-crash theorems proved.",
     "technique": "machine-checked proof in Coq over an executable model + model/implementation correspondence by extraction",
 }
